@@ -399,7 +399,7 @@ def exDom : Str := ['l','o','c','a','l','h','o','s','t']
 def exC1 : Str := ['!','c','1','@','l','o','c','a','l','h','o','s','t']
 def exAlice : Str := ['a','l','i','c','e']
 def exBob : Str := ['b','o','b']
-def exCfg : Cfg :=
+def exCfgC12 : Cfg :=
   { domain := exDom
     maxChannels := 4
     maxClients := 3
@@ -415,13 +415,13 @@ def exCfg : Cfg :=
     maxInflight := 10
     appProtocol := none }
 
-def exHistory : List (Op × Env) :=
+def exHistoryC12 : List (Op × Env) :=
   [(.open_ 1, {}), (.recv 1 (.connect 1 0), {}), (.recv 1 (.identify exAlice), {}),
    (.open_ 2, {}), (.recv 2 (.connect 1 0), {}), (.recv 2 (.identify exBob), {}),
    (.recv 1 (.join 7 exC1 none), {}), (.recv 2 (.join 8 exC1 none), {})]
 
 /-- a 2-member channel exists after the history, and MEMBERS page=0 page_size=u32::MAX gets one reply -/
-example : (repliesTo 2 9 (step (run (init exCfg) exHistory).1 (.recv 2 (.members 9 exC1 (some 0) (some 4294967295))) {}).2).length = 1 := by
+example : (repliesTo 2 9 (step (run (init exCfgC12) exHistoryC12).1 (.recv 2 (.members 9 exC1 (some 0) (some 4294967295))) {}).2).length = 1 := by
   decide +kernel
 
 end Narwhal.Server
